@@ -492,6 +492,11 @@ func (e *Env) c05Sink(rule string) {
 			closes = append(closes, n)
 		}
 	}
+	if len(gos) > 0 && len(waits) == 0 {
+		if e.sinkWaitGroup(g, run, gos, ob, obd) {
+			return
+		}
+	}
 	if len(gos) == 0 || len(waits) == 0 {
 		ob.Fail(core.FuncName(run), fmt.Sprintf("%d drainer goroutines, %d waits", len(gos), len(waits)))
 		return
@@ -621,6 +626,112 @@ func (e *Env) c05Sink(rule string) {
 	}
 }
 
+// sinkWaitGroup recognises the sync.WaitGroup form of drain-all-then-wait: wg.Add(1) in the basic block of every
+// `go` (once per started drainer, under the same conditions), every drainer ranges its channel to closure and
+// calls wg.Done on every returning path, and wg.Wait follows all the go statements. Returns false when the code
+// is not of that form (nothing is reported then).
+func (e *Env) sinkWaitGroup(g *core.XG, run *ssa.Function, gos []*core.Node, ob, obd *core.Obligation) bool {
+	var waits, adds []*core.Node
+	for _, n := range g.Nodes {
+		if n.Kind == core.KAfter {
+			continue
+		}
+		switch {
+		case n.IsCallTo("(*sync.WaitGroup).Wait"):
+			waits = append(waits, n)
+		case n.IsCallTo("(*sync.WaitGroup).Add"):
+			adds = append(adds, n)
+		}
+	}
+	if len(waits) == 0 || len(adds) == 0 {
+		return false
+	}
+	okAll := true
+	used := map[*core.Node]bool{}
+	for _, gn := range gos {
+		hit := false
+		for _, an := range adds {
+			k, isK := an.Call.Args[len(an.Call.Args)-1].(*ssa.Const)
+			if !used[an] && an.Ctx == gn.Ctx && an.Instr.Block() == gn.Instr.Block() && isK && k.Value != nil && k.Int64() == 1 {
+				used[an], hit = true, true
+				break
+			}
+		}
+		if !hit {
+			okAll = false
+			ob.Fail(g.Where(gn), "the drainer is started without a wg.Add(1) of its own under the same condition: Wait returns early or blocks forever")
+		}
+	}
+	if len(adds) != len(gos) {
+		okAll = false
+		ob.Fail(core.FuncName(run), fmt.Sprintf("%d wg.Add calls for %d drainers", len(adds), len(gos)))
+	}
+	// every go precedes the Wait: no go is reachable from a Wait
+	for _, w := range waits {
+		reach := g.ReachableFrom(w, nil)
+		for _, gn := range gos {
+			if reach[gn] {
+				okAll = false
+				ob.Fail(g.Where(gn), "a drainer goroutine is started only after a wait: the sink drains its ports one after the other, so a producer blocked on the not-yet-drained port deadlocks the workflow")
+			}
+		}
+	}
+	// Run does not return without waiting
+	after := g.BackwardMust(func(m *core.Node) core.Bits {
+		if m.IsCallTo("(*sync.WaitGroup).Wait") && m.Kind != core.KAfter && !m.Deferred {
+			return 1
+		}
+		return 0
+	})
+	for _, gn := range gos {
+		if after[gn]&1 == 0 {
+			okAll = false
+			ob.Fail(g.Where(gn), "a returning path after starting a drainer does not Wait for it")
+		}
+	}
+	if okAll {
+		ob.OK(core.FuncName(run), fmt.Sprintf("%d drainers, each with its own wg.Add(1); wg.Wait after all of them", len(gos)))
+	}
+	sy := e.symbolizer()
+	for _, n := range gos {
+		f := funcOf(n.Call.Value)
+		if f == nil {
+			obd.Unknown(g.Where(n), "drainer is not a function literal or method")
+			continue
+		}
+		gd := e.XG(f)
+		if gd == nil {
+			continue
+		}
+		hasRange := false
+		for _, m := range gd.Nodes {
+			if u, ok := m.Instr.(*ssa.UnOp); ok && u.Op == token.ARROW && u.CommaOk && core.InnermostLoop(u) != nil {
+				if strings.Contains(sy.InCtx(m.Ctx, u.X).String(), ".Chan") {
+					hasRange = true
+					if ex := e.P.EarlyExits(core.InnermostLoop(u)); len(ex) > 0 {
+						obd.Fail(gd.Where(m), "the drain loop can be left before the channel is closed: "+ex[0])
+					}
+				}
+			}
+		}
+		aft := gd.BackwardMust(func(m *core.Node) core.Bits {
+			if m.IsCallTo("(*sync.WaitGroup).Done") {
+				return 1
+			}
+			return 0
+		})
+		switch {
+		case !hasRange:
+			obd.Fail(g.Where(n), "the drainer does not range over its in-port channel")
+		case aft[gd.Entry]&1 == 0 && !gd.Entry.IsCallTo("(*sync.WaitGroup).Done"):
+			obd.Fail(core.FuncName(f), "a returning path of the drainer does not call wg.Done: the sink waits forever")
+		default:
+			obd.OK(core.FuncName(f), "range to closure, then wg.Done")
+		}
+	}
+	return true
+}
+
 // sinkCountedWaits recognises the "pending counter" form of drain-all-then-wait: a counter that starts at 0 and
 // is incremented by exactly 1 in the basic block of every `go` statement (so: once per started drainer, under
 // the same conditions), and a single wait inside a counted loop that runs exactly <counter> times. It returns
@@ -737,10 +848,16 @@ func (e *Env) c05Reconnect(rule string) {
 		}
 		var readys []*core.Node
 		for _, n := range g.Nodes {
-			if n.Callee != nil && core.FuncName(n.Callee) == k.readyFn && n.Kind == core.KCall {
-				// only the tests made while rewiring: on an element of a process's port map, followed by a possible sink connection
+			// a Ready() test (the port type's own method, or one promoted from a type the ports embed) ...
+			if n.Callee != nil && n.Callee.Name() == "Ready" && n.Kind == core.KCall && n.Call != nil && len(n.Call.Args) > 0 {
+				// ... only the tests made while rewiring: on an element of a process's port map (the k.ports()
+				// accessor without the Param infix for plain ports), followed by a possible sink connection
 				s := e.xargSym(n, 0).String()
-				if strings.Contains(s, "val∈") && strings.Contains(s, k.ports) && g.ReachableFrom(n, nil)[firstMatch(g, isSinkFrom)] {
+				ofKind := strings.Contains(s, k.ports+"(")
+				if k.ports == "OutPorts" && strings.Contains(s, "OutParamPorts(") {
+					ofKind = false
+				}
+				if strings.Contains(s, "val∈") && ofKind && g.ReachableFrom(n, nil)[firstMatch(g, isSinkFrom)] {
 					readys = append(readys, n)
 				}
 			}
